@@ -21,7 +21,7 @@ def scenarios(tier, seed):
     for m in meths:
         for (a, b) in ((0.0, 1.0), (1.0, 0.0), (-2.0, -1.0), (-1.0, -2.0), (-0.5, 0.5), (0.5, -0.5)):
             span = b - a
-            for kind in range(5):
+            for kind in range(6):
                 for dense in (False, True):
                     if not thorough and (len(scs) + seed) % 2 and kind in (1, 2):
                         pass
@@ -37,6 +37,8 @@ def scenarios(tier, seed):
                     elif kind == 3:       # a single step
                         sc["dt"] = abs(span)
                         sc["ops"] = [{"op": "integrate"}]
+                    elif kind == 5:       # events are monitored: the system keeps step interpolants for root finding whether or not dense output is kept
+                        sc["ops"] = [{"op": "integrate", "events": [{"kind": "time", "c": a + span * 0.4375}], "cbs": probe}]
                     else:                 # the run goes AGAINST the configured span: the grid's direction is the run's, not (t0, tf)'s
                         sc["ops"] = [{"op": "integrate", "t": a - span * 0.75, "cbs": probe}]
                     scs.append(sc)
